@@ -678,8 +678,11 @@ def judge_arr_in(ctx, c):
         other = array.array(tc, arr)
         if len(other):
             i = c.get('alter', 0) % len(other)
-            other[i] = (other[i] + 1.0) if tc in 'fd' and math.isfinite(other[i]) and other[i] + 1.0 != other[i] \
-                else (1.0 if tc in 'fd' else (other[i] - 1 if other[i] > 0 else other[i] + 1))
+            if tc in 'fd':
+                other[i] = 2.0 if other[i] == 1.0 else 1.0
+            else:
+                other[i] = other[i] - 1 if other[i] > 0 else other[i] + 1
+            assert other.tolist() != want
         longer = array.array(tc, arr)
         longer.append(want[0] if want else (1.0 if tc in 'fd' else 1))
         g = call(lambda: (a.equals(arr), a.equals(other) if len(other) else False, a.equals(longer)))
@@ -1249,7 +1252,7 @@ def run(ctx):
     if ctx.shard == 0:
         directed(ctx)
     enumerated(ctx)
-    n = ctx.scale(110000, 3600000)
+    n = ctx.scale(90000, 3600000)
     mix = [(gen_pack, 0.38), (gen_array, 0.17), (gen_endian, 0.17), (gen_byteswap, 0.17), (gen_arr_bswap, 0.05)]
     rng = ctx.rng
     for i in range(n):
